@@ -2,7 +2,9 @@ package harness
 
 import (
 	"context"
+	"errors"
 	"fmt"
+	"sync"
 	"sync/atomic"
 	"testing"
 	"testing/synctest"
@@ -28,6 +30,7 @@ type WCfg struct {
 	Evict    bool
 	Limit    int64
 	Via      string // which constructor builds it
+	Shared   bool   // all callers bring one and the same context (no per-caller cancellation in such a scenario)
 	Precise  bool
 }
 
@@ -56,7 +59,11 @@ type WSUT struct {
 	inAcq   int64 // callers whose Acquire has not returned yet
 	Stale   int64 // largest number of backlog entries seen, at the return of an Acquire, beyond the callers still inside Acquire
 	finish  int32
+
+	sharedCtx context.Context
 }
+
+type sharedKey struct{}
 
 // ZeroDeadline: configuration marker for a deadline limiter built with the zero time.Time (a deadline long past)
 const ZeroDeadline = -(int64(1) << 62)
@@ -204,6 +211,13 @@ func (w *WSUT) Arrive(cancelled bool) int {
 			cancel()
 		}
 	}
+	if w.Cfg.Shared && !cancelled {
+		cancel()
+		if w.sharedCtx == nil {
+			w.sharedCtx = context.WithValue(context.Background(), sharedKey{}, "one context for every caller")
+		}
+		ctx, cancel = w.sharedCtx, func() {}
+	}
 	c := &wCaller{ctx: ctx, cancel: cancel, arrival: time.Now().UnixNano(), t: time.Now().UnixNano(), ret: make(chan struct{})}
 	w.Callers = append(w.Callers, c)
 	atomic.AddInt64(&w.inAcq, 1)
@@ -314,7 +328,57 @@ type wOp struct {
 }
 
 // RunScenario executes ops (generated on the fly by gen) inside a bubble and records the trace.
+// ErrStuck: the scenario's bubble did not come to rest within two minutes of real time (a goroutine of the limiter is spinning, or sits on a
+// mutex that is never released): neither the virtual clock nor the scenario can advance.
+var ErrStuck = fmt.Errorf("scenario does not come to rest")
+
+// ErrBlocked: callers of the limiter stay blocked for ever (no release, timer or cancellation can end their wait any more)
+var ErrBlocked = fmt.Errorf("callers blocked for ever")
+
 func RunScenario(t *testing.T, cfg WCfg, tr *Trace, gen func(w *WSUT, step int) *wOp, after func(w *WSUT, op wOp, before []int64, granted []int64), maxSteps int) (hist []wOp, err error) {
+	var mu sync.Mutex
+	var h []wOp
+	var e error
+	done := make(chan struct{})
+	go func() {
+		defer close(done)
+		defer func() {
+			// synctest panics (in the goroutine that started the bubble) when the bubble can never finish: every goroutine durably blocked with
+			// no timer pending, or goroutines still blocked when the scenario is over
+			if p := recover(); p != nil {
+				mu.Lock()
+				e = fmt.Errorf("%w: %v", ErrBlocked, p)
+				mu.Unlock()
+			}
+		}()
+		hh, ee := runScenario(t, cfg, tr, gen, func(w *WSUT, op wOp, before []int64, granted []int64) {
+			mu.Lock()
+			h = append(h, op)
+			mu.Unlock()
+			if after != nil {
+				after(w, op, before, granted)
+			}
+		}, maxSteps)
+		mu.Lock()
+		h = hh
+		if e == nil {
+			e = ee
+		}
+		mu.Unlock()
+	}()
+	select {
+	case <-done:
+		return h, e
+	case <-time.After(2 * time.Minute):
+		mu.Lock()
+		defer mu.Unlock()
+		return append([]wOp{}, h...), ErrStuck
+	}
+}
+
+var _ = errors.Is
+
+func runScenario(t *testing.T, cfg WCfg, tr *Trace, gen func(w *WSUT, step int) *wOp, after func(w *WSUT, op wOp, before []int64, granted []int64), maxSteps int) (hist []wOp, err error) {
 	synctest.Test(t, func(t *testing.T) {
 		w, e := NewWSUT(cfg)
 		if e != nil {
